@@ -14,6 +14,7 @@
 #include <fstream>
 #include <functional>
 #include <map>
+#include <memory>
 #include <optional>
 #include <set>
 #include <sstream>
@@ -309,8 +310,42 @@ struct TableProvider : public resolvo::DependencyProvider {
     }
 };
 
+// A provider together with the table it reads. Providers are built in one of two static slots, in
+// turn, and destroyed when the solve returns: consecutive solves therefore see provider objects at
+// different addresses, and the slot of the previous solve holds a destroyed (under ASan: poisoned)
+// object - a bridge that remembered the first provider it ever saw would be caught at once.
+struct OwnedProvider {
+    Table table;
+    TableProvider provider;
+    OwnedProvider(const Table &t, int mode) : table(t), provider(table, mode) {}
+};
+#if defined(__has_feature)
+#if __has_feature(address_sanitizer)
+#include <sanitizer/asan_interface.h>
+#define RV_POISON(p, n) ASAN_POISON_MEMORY_REGION(p, n)
+#define RV_UNPOISON(p, n) ASAN_UNPOISON_MEMORY_REGION(p, n)
+#endif
+#endif
+#ifndef RV_POISON
+#define RV_POISON(p, n) ((void)0)
+#define RV_UNPOISON(p, n) ((void)0)
+#endif
+alignas(16) static char g_provider_slots[2][sizeof(OwnedProvider)];
+static unsigned g_provider_turn = 0;
+
 static std::string solve_cpp(const Table &T, int mode, bool prefilled_result) {
-    TableProvider provider(T, mode);
+    char *slot = g_provider_slots[g_provider_turn++ % 2];
+    RV_UNPOISON(slot, sizeof(OwnedProvider));
+    OwnedProvider *owned = new (slot) OwnedProvider(T, mode);
+    struct Destroy {
+        OwnedProvider *o;
+        char *slot;
+        ~Destroy() {
+            o->~OwnedProvider();
+            RV_POISON(slot, sizeof(OwnedProvider));
+        }
+    } destroy{owned, slot};
+    TableProvider &provider = owned->provider;
     resolvo::Vector<resolvo::Requirement> reqs;
     for (auto &r : T.root_reqs)
         reqs.push_back(r.kind == 0 ? resolvo::requirement_single(VersionSetId{r.id})
